@@ -34,14 +34,15 @@ structure SameRecords (s s' : State) : Prop where
   length : s'.length = s.length
   unsolicited : s'.unsolicited = s.unsolicited
   extSupply : s'.extSupply = s.extSupply
+  redeem : s'.redeem = s.redeem
 
-theorem SameRecords.refl (s : State) : SameRecords s s := ⟨rfl, rfl, rfl, rfl, rfl, rfl, rfl, rfl, rfl, rfl, rfl⟩
+theorem SameRecords.refl (s : State) : SameRecords s s := ⟨rfl, rfl, rfl, rfl, rfl, rfl, rfl, rfl, rfl, rfl, rfl, rfl⟩
 
 theorem SameRecords.trans {a b c : State} (h1 : SameRecords a b) (h2 : SameRecords b c) : SameRecords a c :=
   ⟨h2.vaults.trans h1.vaults, h2.stables.trans h1.stables, h2.locked.trans h1.locked, h2.coll.trans h1.coll,
    h2.minted.trans h1.minted, h2.vaultIds.trans h1.vaultIds, h2.nextVault.trans h1.nextVault,
    h2.nextStable.trans h1.nextStable, h2.length.trans h1.length, h2.unsolicited.trans h1.unsolicited,
-   h2.extSupply.trans h1.extSupply⟩
+   h2.extSupply.trans h1.extSupply, h2.redeem.trans h1.redeem⟩
 
 structure BankEffect (s s' : State) (dv ds : Nat → Int) : Prop where
   same : SameRecords s s'
@@ -54,7 +55,7 @@ theorem sendRaw_effect (s s' : State) (a b d0 : Nat) (x : Int) (h : sendRaw s a 
   split at h; · cases h
   split at h; · cases h
   cases h
-  refine ⟨⟨rfl, rfl, rfl, rfl, rfl, rfl, rfl, rfl, rfl, rfl, rfl⟩, ?_, fun _ => by simp⟩
+  refine ⟨⟨rfl, rfl, rfl, rfl, rfl, rfl, rfl, rfl, rfl, rfl, rfl, rfl⟩, ?_, fun _ => by simp⟩
   intro d
   simp only [upd2, BankOp.dVm, vm]
   by_cases hd : d = d0
@@ -77,7 +78,7 @@ theorem mintRaw_effect (s s' : State) (d0 : Nat) (x : Int) (h : mintRaw s d0 x =
   unfold mintRaw at h
   split at h; · cases h
   cases h
-  refine ⟨⟨rfl, rfl, rfl, rfl, rfl, rfl, rfl, rfl, rfl, rfl, rfl⟩, ?_, ?_⟩
+  refine ⟨⟨rfl, rfl, rfl, rfl, rfl, rfl, rfl, rfl, rfl, rfl, rfl, rfl⟩, ?_, ?_⟩
   · intro d; simp only [upd2, BankOp.dVm]; by_cases hd : d = d0 <;> simp [hd]
   · intro d; simp only [upd1, BankOp.dSup]; by_cases hd : d = d0 <;> simp [hd]
 
@@ -87,7 +88,7 @@ theorem burnRaw_effect (s s' : State) (d0 : Nat) (x : Int) (h : burnRaw s d0 x =
   split at h; · cases h
   split at h; · cases h
   cases h
-  refine ⟨⟨rfl, rfl, rfl, rfl, rfl, rfl, rfl, rfl, rfl, rfl, rfl⟩, ?_, ?_⟩
+  refine ⟨⟨rfl, rfl, rfl, rfl, rfl, rfl, rfl, rfl, rfl, rfl, rfl, rfl⟩, ?_, ?_⟩
   · intro d; simp only [upd2, BankOp.dVm]; by_cases hd : d = d0 <;> simp [hd] <;> omega
   · intro d; simp only [upd1, BankOp.dSup]; by_cases hd : d = d0 <;> simp [hd] <;> omega
 
